@@ -148,6 +148,8 @@ def observed_at(r, cycle, port, backend, f=None):
   pv = sv.sv_port_values if backend == 'sv' else sv.ys_port_values
   for n, v in pv(f, mod, r.ports, outs, False):
     if n == port: return v
+  for rp, isin, ch, T in r.ports:      # the packed internal form of a struct-typed input port (Yosys backend)
+    if isin and backend == 'yosys' and sv.ys_name(ch) == port: return f'(VZ {ins[rp]}) [packed value driven on input {rp}]'
   return None
 
 def emitted_lines(text, needle, limit=5):
@@ -191,7 +193,7 @@ def explain(ctx, bad, backend, tag):
     r.w2 = parse_why_text(r.f2, o)
 
 # ---------------------------------------------------------------------- violations
-PRECEDENCE = {'reduce-of-binop', 'sext-of-binop', 'sext-of-ifexp'}
+PRECEDENCE = {'reduce-of-binop', 'reduce-of-ifexp', 'sext-of-binop', 'sext-of-ifexp'}
 
 def replay_of(r, w, backend, f=None, note=None):
   d = r.d
@@ -231,9 +233,14 @@ def struct_forms(f):
   for m in f.modules:
     names = {pn: dims for _, (pn, t, dims) in m['ports']}
     names.update({n: dims for (n, t, dims) in m['decls']})
-    bases = {n for n, dims in names.items() if not dims and any(o.startswith(n + '__') for o in names)}
+    bases = {n for n, dims in names.items() if any(o.startswith(n + '__') for o in names)}
+    bases |= {n.rsplit('__', 1)[0] for n in names if re.search(r'__\d+$', n)}          # lists of struct ports: lo__0__f0 ... / lo__f0
     for n in names:
       if n in bases or any(n.startswith(b + '__') for b in bases): out.add(n)
+    for n in names:
+      # lo__f0 next to lo__0__f0 : the per-field array form of a list of struct ports
+      parts = n.split('__')
+      if any(re.sub(r'__\d+(?=__|$)', '', o) == n and o != n for o in names): out.add(n)
   return out
 
 def member_accesses(f):
@@ -256,80 +263,106 @@ def varnames(txt):
 def class_key(r, pid, backend, symptom, w):
   """stable key for a symptom: by design for the fixed design sets, by a signature of the emitted text for random designs"""
   d = r.d
-  if d.kind != 'gen': return f'{pid}:{symptom}:{d.name}'
   if backend == 'yosys':
     forms = struct_forms(r.f)
-    if symptom == 'multi-driver' and varnames(re.sub(r'\d+', ' ', w.get('collisions', ''))) & forms: return f'{pid}:multi-driver:struct-form'
+    if symptom == 'multi-driver' and varnames(w.get('collisions', '')) & forms: return f'{pid}:struct-form:multi-driver'
     if symptom == 'undriven':
       und = set(re.findall(r'[A-Za-z_][A-Za-z_0-9$.]*', w.get('undriven', '')))
       mods = {m['name'] for m in r.f.modules}
-      if und - mods and (und - mods) <= forms: return f'{pid}:undriven:struct-form'
-    if symptom == 'not-wellformed' and member_accesses(r.f):
+      if und - mods and (und - mods) <= forms: return f'{pid}:struct-form:undriven'
+    if symptom in ('not-wellformed', 'mismatch') and r.w0.get('wellformed') is False and member_accesses(r.f):
       return f'{pid}:not-wellformed:unmangled-member-access'
     if symptom == 'mismatch':
-      und = set(re.findall(r'[A-Za-z_][A-Za-z_0-9$.]*', r.w0.get('undriven', ''))) | varnames(re.sub(r'\d+', ' ', r.w0.get('collisions', '')))
+      und = set(re.findall(r'[A-Za-z_][A-Za-z_0-9$.]*', r.w0.get('undriven', ''))) | varnames(r.w0.get('collisions', ''))
       if und & forms: return f'{pid}:struct-granularity:mismatch'
-  return f'{pid}:{symptom}:{d.name}'
+  return f'{pid}:{d.name}:{symptom}'
 
 def report_bad(ctx, r, pid, backend):
+  """Keys: directed designs   <pid>:<family>:<shape>        (one per defect shape; the design is its minimal reproduction)
+           catalogue designs  <pid>:<design>:<symptoms>     (the catalogue is fixed, the design name is stable)
+           random designs     <pid>:<class signature>       (computed from the emitted text, see class_key)
+     disagreements explained by a repair experiment always get the key of the repair, whatever the design."""
   d = r.d
   w = r.w0
+  def bump(k): ctx.hist[k] = ctx.hist.get(k, 0) + 1
   tags = [f[4:] for f in d.features if f.startswith('tag:')]
-  base = {'design': d.name, 'kind': d.kind, 'backend': backend, 'design_source': d.source, 'coq_says': w.get('raw')}
-  if w['kind'] == 'unparsed' or w['wellformed'] is False:
-    ctx.violation(class_key(r, pid, backend, 'not-wellformed', w), f'{d.name}: emitted text fails sv_wellformed (undeclared identifier / ill-typed select / instance mismatch): {w.get("raw", "")[:200]}', dict(base, emitted_text=r.text[:4000]))
-    return
-  if w.get('collisions', '[]') != '[]':
-    ctx.violation(class_key(r, pid, backend, 'multi-driver', w), f'{d.name}: a variable bit has more than one driver: {w["collisions"][:300]}', dict(base, collisions=w['collisions'], emitted_text=r.text[:6000]))
-  if w.get('undriven', '[]') != '[]' and d.kind == 'case':
-    # the catalogue contains components whose SOURCE leaves a port undriven; the translation is faithful there
-    ctx.hist['undriven-variable(in-source, test catalogue)'] = ctx.hist.get('undriven-variable(in-source, test catalogue)', 0) + 1
-  elif w.get('undriven', '[]') != '[]':
-    ctx.violation(class_key(r, pid, backend, 'undriven', w), f'{d.name}: a declared variable has a bit without any driver: {w["undriven"][:300]}', dict(base, undriven=w['undriven'], emitted_text=r.text[:6000]))
-  if w['kind'] == 'nofixpoint':
-    ctx.violation(f'{pid}:no-fixpoint:{d.name}', f'{d.name}: the emitted module did not settle (cycle {w["cycle"]}, phase {w["phase"]})', dict(base, emitted_text=r.text[:6000]), found_input=False)
-    return
-  if w['kind'] != 'mismatch': return
-  cur, curf, note = w, r.f, None
-  # 1. constants
-  if r.w1 is not None and moved(cur, r.w1):
-    ops, e, true_v, how = r.hits[0]
-    if 'tag:const-subexpr' in d.features: op = next((f[6:] for f in d.features if f.startswith('const:')), ops[-1])
-    else: op = ops[-1] if len(ops) == 1 else 'nested'
-    fam = 'const-subexpr-narrowed' if how == 'narrowed' else 'const-subexpr-unfolded-overflow'
-    ctx.violation(f'{pid}:{fam}:{op}',
-                  f'{d.name}: constant sub-expression emitted unfolded ' + ('with operands narrowed to the width of its folded value' if how == 'narrowed' else 'and overflowing the self-determined width of its operands') +
-                  f': `{sv.expr_text(e)}` (pymtl3 uses {true_v}); port {cur["port"]} at cycle {cur["cycle"]}: emitted text gives {cur["model"]}, pymtl3 gives {observed_at(r, cur["cycle"], cur["port"], backend)}; folding the constant removes this disagreement',
-                  dict(replay_of(r, cur, backend), differing_constant_subexpressions=[(o, sv.expr_text(x), v, h) for o, x, v, h in r.hits[:6]]))
-    ctx.hist['explained:constant-subexpression'] = ctx.hist.get('explained:constant-subexpression', 0) + 1
-    if r.w1['kind'] == 'agree': return
-    cur, note = r.w1, 'value computed on the text with the differing constant sub-expressions folded'
-  # 2. missing parentheses
-  if r.w2 is not None and moved(cur, r.w2):
-    for t in sorted(set(r.repairs)):
-      fam = 'precedence' if t in PRECEDENCE else ('sign-extension' if t == 'sext-of-element' else 'syntax:select-on-expression')
-      ctx.violation(f'{pid}:{fam}:{t}',
-                    f'{d.name}: ' + ('sign extension of an indexed multi-bit element replicates the whole element instead of its top bit' if t == 'sext-of-element' else f'operator expression emitted without parentheses ({t})') + f'; port {cur["port"]} at cycle {cur["cycle"]}: emitted text gives {cur["model"]}, pymtl3 gives {observed_at(r, cur["cycle"], cur["port"], backend, curf)}; '
-                    f're-reading the text with the intended grouping restored removes this disagreement; parser notes: {r.f2.notes[:2]}',
-                    dict(replay_of(r, cur, backend, curf, note), parser_notes=r.f2.notes[:6]))
-    ctx.hist['explained:missing-parentheses'] = ctx.hist.get('explained:missing-parentheses', 0) + 1
-    if r.w2['kind'] == 'agree': return
-    cur, curf, note = r.w2, r.f2, 'value computed on the text with constants folded and parentheses restored'
-  # 3. residue
   tag = next((t for t in tags if t not in ('control', 'const-subexpr')), None)
-  hint = [f for f in d.features if f in ('sext-of-expr', 'reduce-of-expr', 'sext-of-element')]
-  key = f'{pid}:{tag}' if (tag and d.kind == 'directed') else class_key(r, pid, backend, 'mismatch', cur)
-  ctx.violation(key, f'{d.name}: output {cur["port"]} at cycle {cur["cycle"]}: emitted text gives {cur["model"]}, pymtl3 gives {observed_at(r, cur["cycle"], cur["port"], backend, curf)}' +
-                (f' [{tag}]' if tag else '') + (f' (design uses {hint})' if hint else '') + (f'; {note}' if note else ''), replay_of(r, cur, backend, curf, note))
+  base = {'design': d.name, 'kind': d.kind, 'backend': backend, 'design_source': d.source, 'coq_says': w.get('raw')}
+  symptoms = []      # (symptom, message, replay additions)
+  if w['kind'] == 'unparsed':
+    ctx.violation(f'{pid}:{d.name}:coq-output-unparsed', f'{d.name}: could not read Coq\'s answer: {w.get("raw", "")[:200]}', base, found_input=False)
+    return
+  bump(f'{backend}:{d.kind}:replay-{w["kind"]}')
+  if w['wellformed'] is False:
+    bump(f'{backend}:{d.kind}:not-wellformed')
+    acc = sorted(member_accesses(r.f))
+    symptoms.append(('not-wellformed', 'emitted text fails sv_wellformed (undeclared identifier / ill-typed select / instance mismatch)' +
+                     (f'; member access on {acc[:4]}, which is not a struct-typed variable of the module' if acc else ''), {'emitted_text': r.text[:5000]}))
+  if w.get('collisions', '[]') != '[]':
+    bump(f'{backend}:{d.kind}:multi-driver')
+    symptoms.append(('multi-driver', f'a variable bit has more than one driver: {w["collisions"][:300]}', {'collisions': w['collisions'], 'emitted_text': r.text[:5000]}))
+  if w.get('undriven', '[]') != '[]':
+    bump(f'{backend}:{d.kind}:undriven')
+    if d.kind == 'case':
+      # the catalogue contains components whose SOURCE leaves a port undriven; the translation is faithful there
+      bump('undriven-variable(test catalogue; many are undriven in the source)')
+    else:
+      symptoms.append(('undriven', f'a declared variable has a bit without any driver: {w["undriven"][:300]}', {'undriven': w['undriven'], 'emitted_text': r.text[:5000]}))
+  if w['kind'] == 'nofixpoint':
+    symptoms.append(('no-fixpoint', f'the emitted module did not settle (cycle {w["cycle"]}, phase {w["phase"]})', {'emitted_text': r.text[:5000]}))
+  if w['kind'] == 'mismatch':
+    cur, curf, note = w, r.f, None
+    # 1. constants
+    if r.w1 is not None and moved(cur, r.w1):
+      ops, e, true_v, how = r.hits[0]
+      if 'tag:const-subexpr' in d.features: op = next((f[6:] for f in d.features if f.startswith('const:')), ops[-1])
+      else: op = ops[-1] if len(ops) == 1 else 'nested'
+      fam = 'const-subexpr-narrowed' if how == 'narrowed' else 'const-subexpr-unfolded-overflow'
+      ctx.violation(f'{pid}:{fam}:{op}',
+                    f'{d.name}: constant sub-expression emitted unfolded ' + ('with operands narrowed to the width of its folded value' if how == 'narrowed' else 'and overflowing the self-determined width of its operands') +
+                    f': `{sv.expr_text(e)}` (pymtl3 uses {true_v}); port {cur["port"]} at cycle {cur["cycle"]}: emitted text gives {cur["model"]}, pymtl3 gives {observed_at(r, cur["cycle"], cur["port"], backend)}; folding the constant removes this disagreement',
+                    dict(replay_of(r, cur, backend), differing_constant_subexpressions=[(o, sv.expr_text(x), v, h) for o, x, v, h in r.hits[:6]]))
+      bump('explained:constant-subexpression')
+      cur, note = (None, None) if r.w1['kind'] == 'agree' else (r.w1, 'value computed on the text with the differing constant sub-expressions folded')
+    # 2. missing parentheses / sign extension of an element
+    if cur is not None and r.w2 is not None and moved(cur, r.w2):
+      for t in sorted(set(r.repairs)):
+        fam = 'precedence' if t in PRECEDENCE else ('sign-extension' if t == 'sext-of-element' else 'syntax:select-on-expression')
+        ctx.violation(f'{pid}:{fam}:{t}',
+                      f'{d.name}: ' + ('sign extension of an indexed multi-bit element replicates the whole element instead of its top bit' if t == 'sext-of-element' else f'operator expression emitted without parentheses ({t})') +
+                      f'; port {cur["port"]} at cycle {cur["cycle"]}: emitted text gives {cur["model"]}, pymtl3 gives {observed_at(r, cur["cycle"], cur["port"], backend, curf)}; '
+                      f're-reading the text with the intended grouping restored removes this disagreement; parser notes: {r.f2.notes[:2]}',
+                      dict(replay_of(r, cur, backend, curf, note), parser_notes=r.f2.notes[:6]))
+      bump('explained:missing-parentheses')
+      cur, curf, note = (None, None, None) if r.w2['kind'] == 'agree' else (r.w2, r.f2, 'value computed on the text with constants folded and parentheses restored')
+    # 3. residue
+    if cur is not None:
+      hint = [f for f in d.features if f in ('sext-of-expr', 'reduce-of-expr')]
+      symptoms.append(('mismatch', f'output {cur["port"]} at cycle {cur["cycle"]}: emitted text gives {cur["model"]}, pymtl3 gives {observed_at(r, cur["cycle"], cur["port"], backend, curf)}' +
+                       (f' (design uses {hint})' if hint else '') + (f'; {note}' if note else ''), replay_of(r, cur, backend, curf, note)))
+  if not symptoms: return
+  if d.kind in ('directed', 'case'):
+    names = '+'.join(sy for sy, _, _ in symptoms)
+    key = f'{pid}:{d.name}:{tag}' if (d.kind == 'directed' and tag) else f'{pid}:{d.name}:{names}'
+    rep = dict(base)
+    for _, _, extra in symptoms: rep.update(extra)
+    ctx.violation(key, f'{d.name}' + (f' [{tag}]' if tag else '') + ': ' + '; '.join(m for _, m, _ in symptoms), rep)
+    return
+  for sy, msg, extra in symptoms:
+    ctx.violation(class_key(r, pid, backend, sy, w), f'{d.name}: {msg}', dict(base, **extra), found_input=(sy != 'no-fixpoint'))
 
 def run_backend(ctx, pid, backend, designs, ncyc, sim_cache, tagp=''):
   results = []
+  t0 = time.time()
   for k, d in enumerate(designs):
     results.append(prepare(ctx, d, backend, ncyc, ctx.seed + k, sim_cache))
+  t1 = time.time()
   for lo in range(0, len(results), 400):
     evaluate(ctx, results[lo:lo + 400], f'{tagp}{backend}{lo}')
+  t2 = time.time()
   bad = [r for r in results if r.status == 'bad']
   explain(ctx, bad, backend, f'{tagp}{backend}x')
+  ctx.extra[f'time_{tagp}{backend}'] = {'pymtl3_simulate_translate_parse_s': round(t1 - t0, 1), 'coq_replay_s': round(t2 - t1, 1), 'coq_classification_s': round(time.time() - t2, 1)}
   for r in results:
     d = r.d
     if r.status in ('ok', 'bad'):
